@@ -116,3 +116,12 @@ func vsOvByte(d []uint8, i uint16) uint8 {
 	}
 	return 0
 }
+
+// vsBPHit: pc is a member of the breakpoint set (a nil set has no members).
+func vsBPHit(bp map[uint16]struct{}, pc uint16) bool {
+	if bp == nil {
+		return false
+	}
+	_, ok := bp[pc]
+	return ok
+}
